@@ -241,7 +241,8 @@ def unlinkSt (s : St) (src : Nat) (ev : Ev) : St :=
 
 /-- The hook `LinkTo` installs on the target. -/
 def linkHook (src tgt : Nat) : Hook :=
-  { ev := tgt, handle := 0, link := some src, max := 0, count := 0, fired := 0, pooled := false, attached := true }
+  { ev := tgt, handle := 0, link := some src, max := 0, count := 0, fired := 0, pooled := false, pre := false,
+    attached := true }
 
 /-- Hooking the link hook on `tgt` for an event that currently has no link. -/
 def linkSt (s : St) (src tgt : Nat) (ev : Ev) : St :=
@@ -385,7 +386,7 @@ theorem linkInv_link {s : St} (h : LinkInv s) (src tgt : Nat) (ev : Ev) (he : s.
 
 theorem linkInv_step {s : St} (h : LinkInv s) (op : Op) : LinkInv (step s op).1 := by
   cases op with
-  | new m =>
+  | new m p =>
     simp only [step]
     refine ⟨?_, ?_, h.linkmax, h.userhooks⟩
     · intro src ev k he hl
@@ -397,7 +398,7 @@ theorem linkInv_step {s : St} (h : LinkInv s) (op : Op) : LinkInv (step s op).1 
     · intro k hk src hh hl ha
       obtain ⟨ev, he, hel⟩ := h.only k hk src hh hl ha
       exact ⟨ev, by simp only; rw [List.getElem?_append_left (getElem?_lt' he)]; exact he, hel⟩
-  | hook e m b =>
+  | hook e m b p =>
     simp only [step]
     split
     · exact linkInv_append_user h _ rfl
